@@ -164,10 +164,13 @@ def _euler1d(cfg, B):
         # entropy kept:  p_B / rho_B^gamma = p / rho^gamma   (asserted without logarithm)
         B.ob('entropy-kept', 'eq', pb * r0 ** g, p0 * rb ** g, **sw)
         B.ob('outgoing-invariant-kept', 'eq', ub + dr * 2 * VB['asound'][0] / gm1, u0 + dr * 2 * V0['asound'][0] / gm1, **sw)
-        # known finding C16-nrcbc-invariant: the code keeps the invariant of the other family (the one constant across
-        # the outgoing wave); this obligation pins that exact deviation so that any *other* change is still reported
-        B.ob('known-deviation:other-family-invariant-kept', 'eq', ub - dr * 2 * VB['asound'][0] / gm1,
-             u0 - dr * 2 * V0['asound'][0] / gm1, **sw)
+        # known finding C16-nrcbc-invariant: the code keeps the invariant of the other family (the one constant across the
+        # outgoing wave). This companion holds for a code that keeps EITHER the invariant the property names or exactly that
+        # known deviation (product of the two defects = 0), so that any *other* change is still reported and a conforming
+        # repair is not.
+        d_prop = (ub + dr * 2 * VB['asound'][0] / gm1) - (u0 + dr * 2 * V0['asound'][0] / gm1)
+        d_known = (ub - dr * 2 * VB['asound'][0] / gm1) - (u0 - dr * 2 * V0['asound'][0] / gm1)
+        B.ob('invariant-kept:outgoing-or-known-deviation', 'eq', d_prop * d_known, B.const(0), **sw)
     elif bc == 'outsub_rh':
         B.ob('pressure-imposed', 'eq', pb, pp)
         dv = 1 / r0 - 1 / rb
